@@ -1,4 +1,5 @@
 import UralModel.Lemmas.Canonicalize
+import UralModel.Lemmas.QuoteIdem
 /-!
 # C02 — canonicalize_url yields one canonical spelling and is idempotent
 
@@ -80,6 +81,51 @@ theorem hex_case_irrelevant (a b : Str)
 /-- the canonical host is a fixed point of the host rule (case, punycode) -/
 theorem host_idempotent (puny : Str → Str) (hp : PunyLaws puny) (h : Str) :
     canonHost puny (canonHost puny h) = canonHost puny h := canonHost_idem puny hp h
+
+/-! ## idempotence of the unquoted-mode component rules -/
+
+theorem safelyUnquote_idem (U : List UInt8) (hU : (0x25 : UInt8) ∈ U) (hA : AsciiSet U) (s : Str) :
+    safelyUnquote U (safelyUnquote U s) = safelyUnquote U s := by
+  have hout := outTok_unquoteToks U (tokens s) (wf_tokens s)
+  have h : tokens (safelyUnquote U s) = unquoteToks U (tokens s) :=
+    tokens_render_of_canon _ (fun t ht => canon_of_outTok hU (wf_tokens s) (hout t ht))
+  unfold safelyUnquote at h ⊢
+  rw [h, unquoteToks_idem U hU hA]
+
+/-- userinfo items and the fragment: canonicalizing the canonical component changes nothing
+(unquoted mode) -/
+theorem canonOpt_idempotent (U : List UInt8) (hU : (0x25 : UInt8) ∈ U) (hA : AsciiSet U)
+    (o : Option Str) :
+    canonOpt false (safelyUnquote U) (canonOpt false (safelyUnquote U) o) =
+      canonOpt false (safelyUnquote U) o := by
+  cases o with
+  | none => rfl
+  | some u =>
+    simp only [canonOpt]
+    by_cases h : u.isEmpty
+    · simp [h]
+    · simp only [h, Bool.false_eq_true, if_false, requote]
+      by_cases h2 : (safelyUnquote U u).isEmpty
+      · simp [h2]
+      · simp [h2, safelyUnquote_idem U hU hA]
+
+/-- the query: canonicalizing the canonical query changes nothing (unquoted mode) -/
+theorem canonQuery_idempotent (q : Str) :
+    canonQuery false (canonQuery false q) = canonQuery false q := by
+  have hne : safeQslIter q ≠ [] := by
+    rw [safeQslIter_eq]; simpa using splitOn_ne_nil q '&'
+  have hU : (0x25 : UInt8) ∈ Gen.Quote.unsafeForQueryItem := by decide
+  have hA : AsciiSet Gen.Quote.unsafeForQueryItem := by unfold AsciiSet; decide
+  unfold canonQuery
+  simp only [Bool.false_eq_true, if_false]
+  rw [safeQslIter_serialize _ (by simpa [unquoteQsl] using hne) (wf_unquoteQsl _ (wf_safeQslIter q))]
+  congr 1
+  simp only [unquoteQsl, List.map_map]
+  apply List.map_congr_left
+  intro kv _
+  obtain ⟨k, v⟩ := kv
+  simp only [Function.comp, unquoteQueryItem, safelyUnquote_idem _ hU hA]
+  cases v <;> simp [safelyUnquote_idem _ hU hA]
 
 /-- non-vacuity -/
 example : stripControl "a\x00b\x7fc".toList = "abc".toList ∧
